@@ -669,7 +669,8 @@ pub fn gen_esds_f(rng: &mut Rng, low_aot_only: bool, allow_freq15: bool) -> Esds
         avg_bitrate: rng.biased_u32(),
         aot,
         freq_index: fi,
-        freq: rng.biased(24) as u32,
+        // half of the explicit rates are the rates real encoders signal (the 13 table rates)
+        freq: { let r = rng.biased(24) as u32; if r % 2 == 0 { [96000u32, 88200, 64000, 48000, 44100, 32000, 24000, 22050, 16000, 12000, 11025, 8000, 7350][(r / 2) as usize % 13] } else { r } },
         chan: rng.below(16) as u8,
         asc_tail_bits: 0,
         pad: [0; 4],
